@@ -4,6 +4,7 @@ CONSTANTS
   Part = "inf"
   L = 4
   Cut = 6
+  Stride = 1
 INVARIANT LawOutDomain
 INVARIANT LawSame
 INVARIANT LawPreserving
